@@ -353,12 +353,12 @@ theorem c08_validate_strkey (O : Oracles) (ks : String) :
 
 /-- the per-entry pass of `deserialize_map` over a JSON object: every value accepted, every key a string -/
 theorem c08_map_entries (O : Oracles) (opts : DeserOpts) (vf : FieldDecl) (P : PyVal → Prop)
-    (hacc : ∀ w, P w → Accepted O { opts with keepUndefined := true } false vf w) :
+    (hacc : ∀ w, P w → Accepted O opts false vf w) :
     ∀ kvs : List (PyVal × PyVal), jsonDocP kvs = true →
       (∀ kv ∈ kvs, P kv.2) →
       ∃ r, mapE (fun (kv : PyVal × PyVal) =>
-          bindE (deser O { opts with keepUndefined := true } false vf kv.2) fun v' =>
-          bindE (deser O { opts with keepUndefined := true } false (.string none none none) kv.1) fun k' =>
+          bindE (deser O opts false vf kv.2) fun v' =>
+          bindE (deser O opts false (.string none none none) kv.1) fun k' =>
             .ok (k', v')) kvs = .ok r
         ∧ r.all (fun kv => (match kv.1 with | .str _ => true | _ => false) && (validate O vf kv.2).toBool) = true
   | [], _, _ => ⟨[], rfl, rfl⟩
@@ -541,7 +541,7 @@ theorem c08_exactN (O : Oracles) (S : String → String → Bool)
     simp only [jsonDoc] at hj
     obtain ⟨r, hr, hrall⟩ := c08_map_entries O opts vf
       (fun w => jsonDoc w = true ∧ jsV (resolver D S n) S (emit true vf) w = true)
-      (fun w hw => (c08_exactN O S hS D vf n { opts with keepUndefined := true } false w hvf hrf hd hw.1 hw.2).2)
+      (fun w hw => (c08_exactN O S hS D vf n opts false w hvf hrf hd hw.1 hw.2).2)
       kvs hj (fun kv hkv => ⟨c08_jsonDocP_mem kvs hj kv hkv, List.all_eq_true.mp hall kv hkv⟩)
     refine ⟨rfl, .dict (dictOfPairs r), ?_⟩
     have hsz : ∀ m, sizeOk sz m = true := by intro m; simp [sizeOk, hmin', hmax', geLen, leLen]
